@@ -353,8 +353,17 @@ package jobs
 //@     invariant -1 <= $i && $i < len(j.errorHandlers) && len(failingEntityHandlers) == nLogG && nLogG >= 0
 //@     invariant [C17:every-log-handler-seen-so-far-has-its-entity-handler-collected] forall m int :: 0 <= m && m <= $i && j.errorHandlers[m].Type == "log" ==> 0 <= dstG[m] && dstG[m] < len(failingEntityHandlers) && failingEntityHandlers[dstG[m]] == j.errorHandlers[m].failingEntityHandler
 
+// dataset events are emitted while the dataset manager's lock (and, for a rename, the dataset's write lock) is held, and the
+// bus runs its handlers on the emitting goroutine: a job started there would wait for those very locks. $onEmitter says
+// "this code runs on the goroutine that emitted the event"; event handlers start with it set (the handler of an
+// on-change job only starts a goroutine; that goroutine's body is not a unit), and a job may only run without it
+//@ ghost $onEmitter bool
+//@ unit (*Runner).addEventJob$1
+//@   prop C05 C11
+//@   requires [TRUSTED-the-bus-dispatches-handlers-on-the-emitting-goroutine] $onEmitter
 //@ unit (*job).Run
-//@   prop C11 C17
+//@   prop C11 C17 C05
+//@   requires [C05,C11:a-job-never-runs-on-the-goroutine-that-emitted-the-dataset-event-it-reacts-to] !$onEmitter
 //@   ghost ticketG bool = false
 //@   requires [callers-hold-no-lock-at-or-above-the-raffle] forall l int :: has($held, l) ==> lockLevel(l) < 6
 //@   requires j != nil && j.runner != nil && j.runner.raffle != nil && j.runner.raffle.runningJobs != nil && !has($held, addrOf(j.runner.raffle.runningMu))
